@@ -73,7 +73,7 @@ def list_properties(b, cwd):
 
 def cbmc_job(workdir, name, harness_file, entry, enforce=None, replace=(), loop_contracts=False, smt=True,
              timeout=60, extra_cbmc=(), extra_instr=(), own_prefixes=(), solvers=None, defines=(), nondet_static=True,
-             expect_canary=True, canary_timeout=30, split=False, split_workers=6):
+             expect_canary=True, canary_timeout=30, split=False, split_workers=6, small_scope=None):
     global _z3env
     r = JobResult(name)
     t0 = time.time()
@@ -111,9 +111,18 @@ def cbmc_job(workdir, name, harness_file, entry, enforce=None, replace=(), loop_
     prefixes = tuple(own_prefixes) or tuple(p for p in (enforce, entry) if p)
     if solvers is None:
         solvers = ['cvc5', 'z3', 'z3new'] if smt else ['sat']
+    if split and small_scope:
+        # cheap falsification first: a counterexample at small capacity makes the long quantified proof attempt pointless
+        _small_scope_refute(r, workdir, name, harness_file, entry, enforce, replace, loop_contracts, extra_instr, nondet_static, defines, small_scope, prefixes)
+        if r.status == 'refuted':
+            r.cmd = ' '.join(cc) + ' (with -D' + ' -D'.join(small_scope) + ') && ' + ' '.join(gi) + ' && cbmc --trace (SAT, small-scope refutation)'
+            r.seconds = time.time() - t0
+            return r
     if split:
-        return _split_solve(r, t0, workdir, name, b, props, main_ids, canary_ids, prefixes, solvers, extra_cbmc, timeout, smt,
-                            expect_canary, canary_timeout, cc, gi, split_workers)
+        r = _split_solve(r, t0, workdir, name, b, props, main_ids, canary_ids, prefixes, solvers, extra_cbmc, timeout, smt,
+                         expect_canary, canary_timeout, cc, gi, split_workers)
+        r.seconds = time.time() - t0
+        return r
     procs = []
     sel = []
     for p in main_ids:
@@ -304,7 +313,7 @@ def _split_solve(r, t0, workdir, name, b, props, main_ids, canary_ids, prefixes,
             flag, env = _solver_flag(sv)
             if flag is None:
                 continue
-            rc, o, s_, to = run(['cbmc'] + flag + list(extra_cbmc) + sel + [b], cwd=workdir, timeout=timeout, env=env)
+            rc, o, s_, to = run(['cbmc'] + flag + list(extra_cbmc) + sel + [b], cwd=workdir, timeout=timeout if sv == solvers[0] else min(timeout, 150), env=env)
             if to:
                 last = 'timeout'
                 continue
@@ -370,3 +379,40 @@ def _split_solve(r, t0, workdir, name, b, props, main_ids, canary_ids, prefixes,
     r.log = '\n'.join(logs)
     r.seconds = time.time() - t0
     return r
+
+
+def _small_scope_refute(r, workdir, name, harness_file, entry, enforce, replace, loop_contracts, extra_instr, nondet_static, defines, small_defs, prefixes):
+    """Refutation pass for an undecided function: the SAME extracted code and the SAME contracts, compiled with small container
+    capacities (e.g. -DKMAX=4) and checked with the SAT back end, which expands the constant-bounded quantifiers.  A FAILURE there is
+    a genuine counterexample of the contract (a state with at most that many handles / names); all-SUCCESS proves nothing and the
+    function stays undecided."""
+    a = os.path.join(workdir, name + '.small.a.gb')
+    b = os.path.join(workdir, name + '.small.b.gb')
+    cc = ['goto-cc', '-I', LIB, '-I', CONTRACTS, '-I', workdir, '--function', entry] + ['-D' + d for d in list(defines) + list(small_defs)] + [harness_file, '-o', a]
+    rc, out, s_, to = run(cc, cwd=workdir, timeout=120)
+    if rc != 0:
+        r.log += '\n--- small-scope: goto-cc failed\n' + out[-1500:]
+        return
+    gi = ['goto-instrument', '--dfcc', entry] + (['--enforce-contract', enforce] if enforce else [])
+    for g in replace:
+        gi += ['--replace-call-with-contract', g]
+    if loop_contracts:
+        gi += ['--apply-loop-contracts']
+    if nondet_static:
+        gi += ['--nondet-static']
+    gi += list(extra_instr) + [a, b]
+    rc, out, s_, to = run(gi, cwd=workdir, timeout=300)
+    if rc != 0:
+        r.log += '\n--- small-scope: goto-instrument failed\n' + out[-1500:]
+        return
+    rc, o, s_, to = run(['cbmc', '--trace', b], cwd=workdir, timeout=600)
+    res = parse_cbmc(o)
+    fails = [x for x in res if x[2] == 'FAILURE' and not x[1].endswith('canary') and x[0].startswith(prefixes)]
+    r.log += '\n--- small-scope refutation pass (%s, SAT): %d obligations, %d failed\n' % (' '.join(small_defs), len(res), len(fails))
+    if fails and not to:
+        tr = o.split('Trace for ')
+        r.log += ''.join(('Trace for ' + t_)[:2500] for t_ in tr[1:3])
+        r.status = 'refuted'
+        r.failed = [x[0] for x in fails]
+        r.detail = 'counterexample at small container capacity (%s): %s' % (' '.join(small_defs), ','.join(r.failed[:6]))
+        r.backend = (r.backend or '') + '+sat(small-scope)'
